@@ -422,6 +422,14 @@ def one_design(ck, rng, name, factory, opts, ncycles, n_ext, flows, rec, _cycles
           rec.setdefault('flows_refused_by_scheduler', {})[flow] = 'UpblkCyclicError'; continue
         raise
       entries, flat = model_entries(rs, tr)
+      in_comb = set()
+      for e in entries: in_comb.update([e[1]] if e[0] == 'b' else e[1])
+      stray = sorted(in_comb & set(td.ff_ids()))
+      if stray:
+        # direct oracle on the real schedule: an update_ff block in the combinational schedule is evaluated again after the edge
+        ck.violation('ff-block-in-comb-schedule', {'flow': flow, 'design': name}, {'library_design': name, 'flow': flow},
+                     {'ff_blocks_in_comb_schedule': stray, 'oracle': 'the combinational schedule holds update blocks only'})
+        continue
       tr_real, fails = rtlgen.run_real(rs, cycles, rerun=rerun)
       if fails: rec.setdefault('rerun_fails', []).append((flow, fails[0]['cycle'], fails[0]['block']))
       if not rs.objects_stable(): raise InfraError(f'{name}: signal value objects were replaced during simulation')
